@@ -865,14 +865,19 @@ func (s *Script) appendOp(o *op, left, right any) (pb *precBuf) {
 		pb.buf = append(pb.buf, o.name...)
 		pb.buf = append(pb.buf, ' ')
 		pb.buf = s.appendOperand(pb.buf, right, o.prec, true)
+		// The text ends with an open ! if the right operand does and was not
+		// wrapped.
+		if rpb, ok := right.(*precBuf); ok && rpb.not && rpb.prec < o.prec {
+			pb.not = true
+		}
 	}
 	return
 }
 
 // appendOperand appends an operand of a binary operator. Equal precedence is
 // read back left to right so a right operand of the same precedence keeps its
-// parenthesis and a ! as left operand is wrapped or it would capture the
-// operator when read back.
+// parenthesis and a left operand that ends with an open ! is wrapped or the !
+// would capture the operator when read back.
 func (s *Script) appendOperand(buf []byte, v any, prec byte, right bool) []byte {
 	if pb, ok := v.(*precBuf); ok && ((right && prec == pb.prec && !pb.not) || (!right && pb.not)) {
 		buf = append(buf, '(')
@@ -893,7 +898,7 @@ func (s *Script) appendValue(buf []byte, v any, prec byte) []byte {
 	case int64:
 		buf = append(buf, strconv.FormatInt(tv, 10)...)
 	case float64:
-		buf = append(buf, strconv.FormatFloat(tv, 'g', -1, 64)...)
+		buf = appendFloat(buf, tv)
 	case bool:
 		if tv {
 			buf = append(buf, "true"...)
